@@ -12,8 +12,19 @@ Decides on Clang CFGs of lib/src/language.c / language.h:
   L1  the look-ahead iterator says "done" only at the end of the row (large states) or when no group
       is left (small states), and skips nothing but empty entries.
 
-Does not decide conformance of trees to node-types.json nor that merged states list supersets
-(generated data).
+On rustc MIR of tree-sitter-generate (node_types.rs, render.rs):
+
+  M1  claims published in node-types.json only get weaker when contributions are merged
+      (`required` and-ed / cleared, `multiple` or-ed / set);
+  M2  every rule contributing to a node kind is merged into the kind's fields *and* un-fielded children,
+      and a field the rule lacks stops being required;
+  M3  the child-quantity lattice moves in one direction per operation (union weakens, append strengthens)
+      and only because of the other operand;
+  M4  a token sharing a kind with a rule clears `required` everywhere;
+  A1  an alias reuses an existing symbol only by that symbol's *published* name.
+
+Does not decide that every tree conforms to node-types.json (the quantities themselves are computed
+from the grammar) nor that merged states list supersets.
 """
 from common import *  # noqa: F401,F403
 
@@ -119,6 +130,129 @@ def rule_lookahead(ctx, F):
             ctx.gate("L1", g, acc, [("a row is looked up only for an existing state", pat, False)], accept_desc="positioning the iterator")
 
 
+def rule_node_types(ctx):
+    """M1–M4 (rustc MIR of tree-sitter-generate, node_types.rs): when several rules contribute to one
+    node kind, or several alternatives to one child slot, the published claims only ever get weaker —
+    `required` is and-ed or cleared, `multiple` is or-ed or set — and every contributing rule is merged
+    into both the fields and the un-fielded children of the kind."""
+    import rsrules
+    from rsrules import calls_named, find_fn, inline_text, text_gate, deep_text
+    ctx.config = "rust"
+    F = ctx.extract.rsfacts("tree_sitter_generate")
+    ctx.analysed["rust_functions"] = len(F.fn_list)
+    # M1: stores to FieldInfoJSON.required / .multiple
+    n = 0
+    for fn in F.fn_list:
+        if "node_types::" not in fn.name or fn.name.endswith("::default"):
+            continue
+        for pt, e in fn.points():
+            for x in own_walk(e):
+                if x.get("k") == "assign" and strip(x["l"]).get("k") == "mem" and (strip(x["l"]).get("rec") or "").endswith("FieldInfoJSON") and strip(x["l"]).get("f") in ("required", "multiple"):
+                    f = strip(x["l"])["f"]
+                    lt, rt = inline_text(fn, x["l"]), inline_text(fn, x["r"])
+                    r = strip(x["r"])
+                    n += 1
+                    if f == "required":
+                        ok = (r.get("k") == "int" and not r.get("v")) or (rt.startswith("(" + lt + " & ") or rt.endswith(" & " + lt + ")"))
+                        want = "cleared or and-ed with its previous value"
+                    else:
+                        ok = (r.get("k") == "int" and r.get("v") == 1) or (rt.startswith("(" + lt + " | ") or rt.endswith(" | " + lt + ")"))
+                        want = "set or or-ed with its previous value"
+                    key = "%s:%s-only-weakens#%s" % (fn.name.split("node_types::")[-1], f, fn.loc(pt).split(":")[-1] if False else str(n))
+                    if ok:
+                        ctx.ok("M1", key, "FieldInfoJSON.%s is %s (%s)" % (f, want, fn.loc(pt)), nontrivial=False)
+                    else:
+                        ctx.bad("M1", "%s:%s-only-weakens" % (fn.name.split("node_types::")[-1], f), "%s stores `%s` into FieldInfoJSON.%s at %s: merged node-type claims may only get weaker (%s), otherwise a kind produced by several rules is described by the strongest of them" % (
+                            fn.name, rt[:60], f, fn.loc(pt), want), {"site": fn.loc(pt)})
+    ctx.floor("stores to FieldInfoJSON.required/multiple", n, 7)
+    # M2: each contributing rule is merged into the kind's un-fielded children
+    fn = find_fn(ctx, F, "node_types::build_regular_entries", "M2")
+    if fn:
+        trig = [pt for pt, c, d in calls_named(fn, "Entry", "or_insert_with") if "NodeInfoJSON" in ((c.get("targs") or "") + (c.get("fn") or "") + str(strip(d).get("t") if d else ""))] or \
+               [pt for pt, c, d in calls_named(fn, "BTreeMap", "::entry")][:1]
+        pops = [(pt, c) for pt, c, d in calls_named(fn, "populate_field_info_json")]
+        ch = [pt for pt, c in pops if "children" in deep_text(fn, c["a"][0], user=False)]
+        fl = [pt for pt, c in pops if pt not in ch]
+        ctx.floor("populate_field_info_json calls in build_regular_entries", len(pops), 2)
+        if trig and ch:
+            ctx.after("M2", "build_regular_entries:children-merged-for-every-rule", fn, trig, ch,
+                      "every rule that contributes to a node kind is merged into the kind's un-fielded children (so a rule without such children clears `required`)", retrigger_is_stop=True)
+        else:
+            ctx.bad("M2", "build_regular_entries:children-merged-for-every-rule", "build_regular_entries no longer merges each rule's children_without_fields into the node kind")
+        clr = [pt for pt, e in fn.points() for x in own_walk(e) if x.get("k") == "assign" and strip(x["l"]).get("k") == "mem" and strip(x["l"]).get("f") == "required" and strip(x["r"]).get("k") == "int" and not strip(x["r"]).get("v")]
+        text_gate(ctx, "M2", fn, clr, [("a field the current rule lacks stops being required", [(("contains_key",), False)])], accept_desc="clearing `required` of an existing field")
+    # M3: populate_field_info_json and the quantity lattice
+    fn = find_fn(ctx, F, "node_types::populate_field_info_json", "M3")
+    if fn:
+        clr = [pt for pt, e in fn.points() for x in own_walk(e) if x.get("k") == "assign" and strip(x["l"]).get("k") == "mem" and strip(x["l"]).get("f") == "required" and strip(x["r"]).get("k") == "int"]
+        text_gate(ctx, "M3", fn, clr, [("an empty contribution clears `required`", [(("is_empty",), True)])], accept_desc="clearing `required`")
+        ext = [pt for pt, c, d in calls_named(fn, "extend")]
+        ctx.floor("type-set extensions in populate_field_info_json", len(ext), 1)
+    for name, stores in (("ChildQuantity::union", [("required", 0, ("other.required",), False), ("multiple", 1, ("other.multiple",), True), ("exists", 1, ("other.exists",), True)]),
+                         ("ChildQuantity::append", [("required", 1, ("other.required",), True), ("multiple", 1, ("other.exists",), True), ("exists", 1, ("other.exists",), True)])):
+        fn = find_fn(ctx, F, "node_types::" + name, "M3")
+        if not fn:
+            continue
+        oname = fn.params[1]["name"] if len(fn.params) > 1 else "other"
+        for f, val, needles, want in stores:
+            needles = tuple(n.replace("other", oname) for n in needles)
+            sts = [(pt, strip(x["r"])) for pt, e in fn.points() for x in own_walk(e) if x.get("k") == "assign" and strip(x["l"]).get("k") == "mem" and strip(x["l"]).get("f") == f and strip(x["r"]).get("k") == "int"]
+            wrong = [pt for pt, r in sts if bool(r.get("v")) != bool(val)]
+            if wrong:
+                ctx.bad("M3", "%s:%s-direction" % (name, f), "%s sets `%s` to %s at %s; in this operation it may only become %s" % (name, f, not val, fn.loc(wrong[0]), bool(val)))
+            elif sts:
+                text_gate(ctx, "M3", fn, [pt for pt, r in sts], [("%s: `%s` becomes %s only because of the other operand" % (name.split("::")[-1], f, bool(val)), [(needles, want)])], accept_desc="changing `%s`" % f)
+            else:
+                ctx.bad("M3", "%s:%s-updated" % (name, f), "%s no longer updates `%s`" % (name, f))
+    # M4: a named token that shares its kind with a rule has no children and no fields that are required
+    fn = find_fn(ctx, F, "node_types::build_token_entries", "M4")
+    if fn:
+        clr = [pt for pt, e in fn.points() for x in own_walk(e) if x.get("k") == "assign" and strip(x["l"]).get("k") == "mem" and strip(x["l"]).get("f") == "required" and strip(x["r"]).get("k") == "int" and not strip(x["r"]).get("v")]
+        if len(clr) >= 2:
+            ctx.ok("M4", "build_token_entries:token-kind-clears-required", "a token sharing a node kind clears `required` of the kind's children and of every field (%d stores)" % len(clr))
+        else:
+            ctx.bad("M4", "build_token_entries:token-kind-clears-required", "build_token_entries no longer clears `required` of both the children and the fields of a kind that a token also produces (%d stores)" % len(clr))
+
+
+def rule_effective_name(ctx):
+    """A1 (render.rs): a symbol's public name is its default alias if it has one, else its own name.
+    symbols_for_alias decides which existing symbols an alias can reuse, so it must compare the alias
+    with the symbol's *own* name only for symbols without a default alias — otherwise an alias reuses a
+    symbol whose published name is something else, and node-types.json names a kind no symbol has."""
+    import rsrules
+    from rsrules import deep_text, calls_named
+    F = ctx.extract.rsfacts("tree_sitter_generate")
+    fam = [f for f in F.fn_list if f.name.startswith("render::Generator::symbols_for_alias")]
+    if not fam:
+        ctx.bad("A1", "symbols_for_alias:anchor", "render::Generator::symbols_for_alias not found")
+        return
+    own = [(f, pt) for f in fam for pt, c, d in calls_named(f, "metadata_for_symbol")]
+    ctx.floor("own-name comparisons in symbols_for_alias", len(own), 1)
+    # closures handed over as the `no default alias` arm of an Option combinator on default_aliases.get(..)
+    none_arms = set()
+    for f in fam:
+        for pt, e in f.points():
+            for x in own_walk(e):
+                if x.get("k") == "call" and any((x.get("fn") or "").endswith(m) for m in ("::map_or_else", "::unwrap_or_else", "::or_else", "::is_none_or")) and x.get("a"):
+                    recv = deep_text(f, x["a"][0], user=False)
+                    if "default_aliases" in recv and "::get(" in recv:
+                        arm = rsrules.cond_def(f, x["a"][1]) if len(x["a"]) > 1 else {}
+                        if arm.get("k") == "agg" and arm.get("adt") == "closure" and arm.get("def"):
+                            none_arms.add(arm["def"])
+    for f, pt in own:
+        key = "symbols_for_alias:own-name-only-without-default-alias"
+        if f.name in none_arms:
+            ctx.ok("A1", key, "the own-name comparison sits in the `no default alias` arm of default_aliases.get(symbol)", sample={"function": f.name})
+            continue
+        srch = Search(f, rsrules.TextGate(f, [pt], [(("default_aliases", "::get(", "=None"), True), (("default_aliases", "is_none"), True), (("default_aliases", "is_some"), False),
+                                                    (("default_aliases", "contains_key"), False)], deep=True), budget=500000)
+        if srch.run(0) is None:
+            ctx.ok("A1", key, "the own-name comparison is guarded by the absence of a default alias", sample={"function": f.name})
+        else:
+            ctx.bad("A1", key, "%s compares the alias with the symbol's own name at %s even when the symbol has a default alias: an alias then reuses a symbol that is published under another name" % (f.name, f.loc(pt)),
+                    {"site": f.loc(pt)})
+
+
 def run(ctx):
     for cfg in configs(ctx):
         ctx.config = cfg
@@ -126,6 +260,9 @@ def run(ctx):
         ctx.analysed["c_functions_" + cfg] = len(F.fn_list)
         rule_names(ctx, F)
         rule_lookahead(ctx, F)
+    rule_node_types(ctx)
+    rule_effective_name(ctx)
     return ctx.finish(
         "Gate rules over language.c / language.h: name look-ups accept only exact matches over the whole id range and return the matching id; id→name reads stay inside the tables; "
-        "the look-ahead iterator stops only at the end of a row / group list and skips only empty entries. Does not decide node-types.json conformance or superset look-ahead sets.")
+        "the look-ahead iterator stops only at the end of a row / group list and skips only empty entries; merged node-type claims only weaken and every contributing rule is merged (rustc MIR of node_types.rs); "
+        "aliases reuse symbols by published name only. Does not decide node-types.json conformance as such or superset look-ahead sets.")
